@@ -158,11 +158,117 @@ def gen_cases(rng, n):
     return cases
 
 
+# ---------------------------------------------------------------- shape semantics
+# Model/JsonConcrete.v gives each writer shape a meaning; here the Python expression the
+# shape names (harness/schema.py recognises exactly these) is evaluated on sample attribute
+# values and compared with the model's [out] by vm_compute.
+def _coq_str(s):
+    return '"%s"' % s.replace('"', '""')
+
+
+def _jv(x):
+    """a JSON-able Python value as a jv term"""
+    if x is None:
+        return "JNull"
+    if isinstance(x, bool):
+        return "(JBool %s)" % ("true" if x else "false")
+    if isinstance(x, int):
+        return "(JInt (%d)%%Z)" % int(x)
+    if isinstance(x, float):
+        return "(JFloatOfInt (%d)%%Z)" % int(x) if x.is_integer() else "(JFloat %s)" % _coq_str(repr(x))
+    if isinstance(x, str):
+        return "(JStr %s)" % _coq_str(x)
+    if isinstance(x, (list, tuple)):
+        return "(JList [%s])" % "; ".join(_jv(y) for y in x)
+    if isinstance(x, dict):
+        return "(JDict [%s])" % "; ".join("(%s, %s)" % (_coq_str(k), _jv(v)) for k, v in x.items())
+    raise TypeError(x)
+
+
+class _Obj:
+    def __init__(self, ID):
+        self.ID = ID
+
+
+def shape_samples(rng):
+    import datetime
+    import enum
+    from pDESy.model.base_task import BaseTaskState, BaseTaskDependency
+    from pDESy.model.base_priority_rule import TaskPriorityRuleMode
+    out = []          # (okind, av term, expected python value -> jv term)
+
+    def av_of(v):
+        if isinstance(v, enum.IntEnum):
+            return "(AEnum (%d)%%Z)" % int(v)
+        if isinstance(v, _Obj):
+            return "(ARef %s %d)" % (_coq_str(v.ID), rng.randrange(5))
+        return "(AJ %s)" % _jv(v)
+    plain = [None, True, False, 0, 3, -1, 2.5, 1.0, 0.0, "x", "", [1, 2], [], [0.5, 2], {"n0": 1.0, "n1": 0.25}, [["t1", 0]], "2020-01-01"]
+    for v in plain:
+        out.append(("OPlain", av_of(v), _jv(v)))
+        out.append(("OOptPlain", av_of(v), _jv(v if v is not None else None)))
+    enums = [BaseTaskState.NONE, BaseTaskState.READY, BaseTaskState.WORKING, BaseTaskState.FINISHED, BaseTaskState.WORKING_ADDITIONALLY,
+             TaskPriorityRuleMode.FIFO, BaseTaskDependency.SF]
+    for e in enums:
+        out.append(("OInt", av_of(e), _jv(int(e))))
+    for v in (0, 4, True):
+        out.append(("OInt", av_of(v), _jv(int(v))))
+    for _ in range(6):
+        l = [rng.choice(enums) for _ in range(rng.randrange(0, 5))]
+        out.append(("OListInt", "(AList [%s])" % "; ".join(av_of(e) for e in l), _jv([int(x) for x in l])))
+    for l in ([], [1, 2.5, 0], [0.0, 3.0], [7], [0.125, 2]):
+        out.append(("OListFloat", av_of(l), _jv([float(x) for x in l])))
+    for _ in range(6):
+        objs = [_Obj("id%d" % rng.randrange(9)) for _ in range(rng.randrange(0, 4))]
+        avs = [av_of(o) for o in objs]
+        out.append(("OListId", "(AList [%s])" % "; ".join(avs), _jv([x.ID for x in objs])))
+        deps = [rng.choice(list(BaseTaskDependency)) for _ in objs]
+        out.append(("OListIdDep", "(AList [%s])" % "; ".join("(APair %s %s)" % (a, av_of(d)) for a, d in zip(avs, deps)),
+                    _jv([(t.ID, int(d)) for t, d in zip(objs, deps)])))
+    o = _Obj("w7")
+    out.append(("OOptId", av_of(o), _jv(o.ID if o is not None else None)))
+    out.append(("OOptId", "(AJ JNull)", _jv(None)))
+    for secs in (60, 1, 0.5, 86400, 90.25):
+        td = datetime.timedelta(seconds=secs)
+        tok = str(td.total_seconds())
+        out.append(("OSecondsStr", "(ATimedelta %s)" % _coq_str(tok), _jv(tok)))
+    origin = datetime.datetime(2000, 1, 1)
+    for (sec, mic) in ((0, 0), (86399, 5), (12345678, 999999), (60, 0)):
+        dt = origin + datetime.timedelta(seconds=sec, microseconds=mic)
+        text = dt.strftime("%Y-%m-%d %H:%M:%S")
+        back = int((datetime.datetime.strptime(text, "%Y-%m-%d %H:%M:%S") - origin).total_seconds())
+        out.append(("ODateStr", "(ADate (%d)%%Z (%d)%%Z)" % (sec, mic), "(JInt (%d)%%Z)" % back))
+    return out
+
+
+def shape_mismatches(ctx):
+    import os
+    from .. import common as C
+    rng = random.Random(ctx["seed"] + 16)
+    ents = shape_samples(rng)
+    path = os.path.join(ctx["work"], "shapes.v")
+    with open(path, "w") as f:
+        f.write("From Coq Require Import List String ZArith.\nFrom PV Require Import Model.Corr Model.JsonSchema Model.JsonConcrete.\n"
+                "Import ListNotations.\nOpen Scope string_scope.\n"
+                "Eval vm_compute in (mismatches chk_out [%s]).\n" % ";\n ".join("(%s, %s, %s)" % e for e in ents))
+    lists, _ = C.coq_eval_nat_lists(path, cwd=ctx["work"])
+    return ["writer shape %s: Model/JsonConcrete.out disagrees with the Python expression on %s (python gives %s)" % ents[j] for j in lists[0]], len(ents)
+
+
 def run(ctx):
     rng = random.Random(ctx["seed"])
-    n = 10000 if ctx["tier"] == "thorough" else 300
+    n = 10000 if ctx["tier"] == "thorough" else 600
     cases = simcheck.load_corpus("C16") + gen_cases(rng, n)
     results = simcheck.run_cases(ctx, "harness.props.c16", cases)
+    bad, nshape = shape_mismatches(ctx)
+    if bad and results:
+        results[0].setdefault("disagreements", []).extend(bad)
+    res = _summarise(ctx, cases, results)
+    res["extra"]["writer_shape_samples_checked_against_model"] = nshape
+    return res
+
+
+def _summarise(ctx, cases, results):
     return simcheck.summarise(ctx, cases, results,
                               "random projects (incl. sub-project tasks, values 0 / 0.0 / -1, empty lists) saved at four stages "
                               "(never simulated, paused at k, finished forward, finished backward): write -> read -> write compared "
